@@ -560,6 +560,14 @@ def plan_c07(wd, rng, T, mat):
         mk(binary, "binary", steps)
     # directed: every limit kind on positions with one legal move, terminal positions, and a threefold root
     specials = [(g["fen"], []) for g in (mat.one_move + mat.terminal)[: (40 if T else 5)]] + [(START, list(SHUFFLE))]
+    # ... and roots at and beyond the fifty-move limit (the game is a draw by rule there, the engine is still asked for a move)
+    def clocked(fen, h):
+        f = fen.split(" ")
+        return " ".join(f[:4] + [str(h), str(max(int(f[5]), h // 2 + 1))])
+    late = [g for g in mat.items if len(g["legal"]) >= 2]
+    for g in rng.sample(late, min(len(late), 12 if T else 3)):
+        specials.append((clocked(g["fen"], rng.choice([99, 100, 100, 101, 149, 150, 400])), []))
+    specials.append(("rnbqkbnr/pppppppp/8/8/8/8/PPPPPPPP/RNBQKBNR w KQkq - 98 60", ["g1f3", "g8f6"]))
     for fen, moves in specials:
         steps = [{"t": "position", "fen": fen, "moves": moves}]
         for g in ({"depth": 1}, {"depth": 3}, {"movetime": 0}, {"movetime": 30}, {"wtime": 1000, "btime": 1000, "winc": 0, "binc": 0},
